@@ -33,7 +33,7 @@ def enc_obls(prop):
                 if not t2:
                     continue
                 ms = mult * bs + 2
-                o.append(Obl('enc_%s_bs%d_len%d' % (h, bs, ms), 'enc.cpp', 'h_enc_' + h, unwind=ms + 2, defines=d + ['ENC_MAXSTR=%d' % ms], tiers=t2, timeout=1500,
+                o.append(Obl('enc_%s_bs%d_len%d' % (h, bs, ms), 'enc.cpp', 'h_enc_' + h, unwind=ms + 2, defines=d + ['ENC_MAXSTR=%d' % ms], tiers=t2, timeout=1500, mem_gb=24,     # the witness twin of the bytestring obligation peaks at 15.8 GB
                              unwindset={r'^__v_mem(cpy|move|set)\.': bs + 1, r'CdnsEncoder16write_(byte|text)string': mult + 2},
                              desc='string of symbolic length 0..%d with symbolic bytes from any I_enc state: head + payload appended in order across flushes' % ms,
                              bounds={'BUFFER_SIZE': bs, 'string length': '0..%d' % ms}, functions=ENC_FUNCS))
@@ -374,7 +374,7 @@ FP_ALLOWED_EXT = (r'_Z.*|__cxa_.*|__gxx_personality_v0|__verif_.*|nondet_.*|__vs
 
 def fp_obl(name, harness, entry, defines=(), unwind=14, unwindset=(), redirect=(), vcall=(), opt='-O1', timeout=900, tiers=('quick', 'thorough')):
     return Obl('fp_' + name, harness, 'noctor:' + entry, unwind=unwind, unwindset=unwindset, defines=defines, redirect=redirect, vcall=vcall, opt=opt, timeout=timeout,
-               footprint=True, witness=False, tiers=tiers,
+               footprint=True, witness=True, tiers=tiers,
                desc='footprint: every store / memcpy / memset destination reached from this entry point is checked (for all inputs of the harness) not to alias a library-owned mutable global',
                bounds={'as in the functional obligation for the same entry': True}, functions=['all functions reachable from ' + entry])
 
